@@ -52,6 +52,40 @@ def singleEntry? (rows cols : Nat) (m : Nat → Nat → GInt) : Option GInt := I
         | some _ => return none
   return some (found.getD 0)
 
+/-- `a,b` (Gaussian integer) or `p/q` (real rational) ↦ Gaussian rational -/
+def parseQI? (s : String) : Option QI :=
+  if s.contains ',' then (parseGInt? s).map QI.ofGInt
+  else (parseRat? s).map fun r => ⟨r, 0⟩
+
+def parseQIList? (s : String) : Option (List QI) := (s.splitOn ";").mapM parseQI?
+
+def ratAbs (r : Rat) : Rat := if r < 0 then -r else r
+
+/-- min over the diagonal of a rational matrix; `none` if some off-diagonal entry is non-zero or an entry is not real -/
+def diagMinQ? (N : Nat) (m : Nat → Nat → QI) : Option Rat := Id.run do
+  let mut best : Option Rat := none
+  for r in List.range N do
+    for c in List.range N do
+      let v := m r c
+      if r = c then
+        if v.im ≠ 0 then return none
+        best := match best with
+          | none => some v.re
+          | some b => some (if v.re < b then v.re else b)
+      else if v ≠ 0 then return none
+  return best
+
+def singleEntryQ? (rows cols : Nat) (m : Nat → Nat → QI) : Option QI := Id.run do
+  let mut found : Option QI := none
+  for r in List.range rows do
+    for c in List.range cols do
+      let v := m r c
+      if v ≠ 0 then
+        match found with
+        | none => found := some v
+        | some _ => return none
+  return some (found.getD 0)
+
 def handle (args : List String) : String :=
   match args with
   | ["gpptlist", n] => Id.run do
@@ -84,34 +118,44 @@ def handle (args : List String) : String :=
           | _ => return "bad-op"
       | _ => return "bad-op"
   | [op, dims, eps, ents] => Id.run do
+      -- verdict layer.  `eps` = "default" ⇒ the constant regenerated from the source (`Generated/Thresholds.lean`) is used, exactly the
+      -- constant the robust-acceptance theorems are about; entries are Gaussian integers `a,b` or exact rationals `p/q`.
       let some dim := parseNatList? dims | return "bad-op"
-      let some eps := parseRat? eps | return "bad-op"
-      let some e := parseGIntList? ents | return "bad-op"
+      let some e := parseQIList? ents | return "bad-op"
       if !validDims dim then return "bad-op"
       let N := prodL dim
       if e.length ≠ N * N then return "bad-op"
-      let ρ := matOf N e.toArray
+      let ea := e.toArray
+      let ρ : Nat → Nat → QI := fun r c => ea.getD (r * N + c) 0
       let b2s := fun (b : Bool) => if b then "1" else "0"
+      let epsOf := fun (dflt : Rat) => if eps = "default" then some dflt else parseRat? eps
       match op with
       | "vppt" =>
-          let l := (List.range dim.length).map fun i => diagMin? N (pptMatrix dim i ρ)
+          let some ε := epsOf Thresholds.isPptEpsDefault | return "bad-op"
+          let l := (List.range dim.length).map fun i => diagMinQ? N (pptMatrix dim i ρ)
           if l.any Option.isNone then return "bad-op"
-          return b2s (l.all fun m => isPptAccept eps ((m.getD 0 : Int) : Rat))
+          return b2s (l.all fun m => isPptAccept ε (m.getD 0))
       | "vred" =>
-          let l := (List.range dim.length).map fun i => diagMin? N (reductionMatrix dim i ρ)
+          let some ε := epsOf Thresholds.reductionEpsDefault | return "bad-op"
+          let l := (List.range dim.length).map fun i => diagMinQ? N (reductionMatrix dim i ρ)
           if l.any Option.isNone then return "bad-op"
-          return b2s (l.all fun m => reductionAccept eps ((m.getD 0 : Int) : Rat))
+          return b2s (l.all fun m => reductionAccept ε (m.getD 0))
       | "vgppt" =>
           -- `eps` is the `threshold` keyword; only matrices with a single non-zero (real) entry, where the nuclear norm is |entry|
+          let some ε := epsOf Thresholds.gpptThresholdDefault | return "bad-op"
           let l := (gpptDimList dim.length).map fun (d0, d1) =>
             let rows := gpptRows dim d0
-            singleEntry? rows (N * N / rows) (gpptMatrix dim d0 d1 ρ)
+            singleEntryQ? rows (N * N / rows) (gpptMatrix dim d0 d1 ρ)
           if l.any Option.isNone then return "bad-op"
           if l.any (fun v => (v.getD 0).im ≠ 0) then return "bad-op"
-          return b2s (l.all fun v => gpptAccept eps (((v.getD 0).re.natAbs : Int) : Rat))
+          -- both return paths of the implementation: the early exit must agree with the final test
+          let acc := l.all fun v => gpptAccept ε (ratAbs (v.getD 0).re)
+          let brk := l.any fun v => gpptBreak ε (ratAbs (v.getD 0).re)
+          return if acc = !brk then b2s acc else "inconsistent-return_info"
       | "vswap" =>
+          let some ε := epsOf Thresholds.swapEpsDefault | return "bad-op"
           match dim with
-          | [d, d'] => if d ≠ d' then return "bad-op" else return b2s (swapAccept eps (((swapValue d ρ).re : Int) : Rat))
+          | [d, d'] => if d ≠ d' then return "bad-op" else return b2s (swapAccept ε (swapValue d ρ).re)
           | _ => return "bad-op"
       | _ => return "bad-op"
   | _ => "bad-op"
